@@ -113,6 +113,7 @@ Proof.
   intros outs rate chg chgwit coins a (Ho & Hv & Hc) H.
   pose proof (success_fee_lower generated_cfg outs rate chg chgwit coins a H) as (He & _).
   pose proof (success_fee_upper generated_cfg outs rate chg chgwit coins eq_refl Hc a H) as (H1 & H2).
+  rewrite (est_size_vcc generated_cfg outs chg _ eq_refl) in He.
   split; [exact He|split; assumption].
 Qed.
 Print Assumptions C07_fee_upper_bound.
@@ -141,8 +142,10 @@ Theorem C07_insufficient_funds : forall outs rate chg chgwit coins r,
     sum_coins Q < sum_values outs + fee_for rate (est_vsize_gen true (counts_of (map fst Q)) outs chg).
 Proof.
   intros outs rate chg chgwit coins r (Ho & Hv & Hc) Hr H. split.
-  - exact (author_insufficient generated_cfg outs rate chg chgwit coins eq_refl Ho Hv Hc r eq_refl Hr H).
-  - exact (author_insufficient_no_prefix generated_cfg outs rate chg chgwit coins eq_refl Ho Hv Hc r eq_refl Hr H).
+  - rewrite <- (est_size_vcc generated_cfg outs chg _ eq_refl).
+    exact (author_insufficient generated_cfg outs rate chg chgwit coins eq_refl Ho Hv Hc r eq_refl Hr H).
+  - intros Q q HQ. rewrite <- (est_size_vcc generated_cfg outs chg _ eq_refl).
+    exact (author_insufficient_no_prefix generated_cfg outs rate chg chgwit coins eq_refl Ho Hv Hc r eq_refl Hr H Q q HQ).
 Qed.
 Print Assumptions C07_insufficient_funds.
 
